@@ -177,6 +177,10 @@ var MaxHelperDepth = 2
 // parameter tokens "#i" (not the "#i" of a tuple extraction, which always follows ')')
 var reParam = regexp.MustCompile(`(^|[^)\w])#([0-9]+)(\.)?`)
 
+// SubstParams rewrites the parameter tokens "#i" of a term string to the given terms (exported for rules that
+// re-evaluate a helper's call site in its caller's vocabulary).
+func SubstParams(s string, subst []string) string { return substParams(s, subst, "") }
+
 func substParams(s string, subst []string, unknown string) string {
 	return reParam.ReplaceAllStringFunc(s, func(m string) string {
 		sm := reParam.FindStringSubmatch(m)
